@@ -409,45 +409,80 @@ var cueRunaway = regexp.MustCompile(`(\]?)\s*\*\s*([0-9_]{9,})|([0-9_]{9,})\s*\*
 // by a number of 18 or more digits overflows at once (the evaluator panics
 // immediately, which the decoder must turn into an error), so it is kept.
 func cueDangerous(data []byte) bool {
-	for _, m := range cueRunaway.FindAllSubmatch(data, -1) {
-		num, list := m[2], len(m[1]) > 0
-		if len(num) == 0 {
-			num, list = m[3], len(m[4]) > 0
+	s := string(data)
+	isNumRune := func(r byte) bool { return r >= '0' && r <= '9' || r == '_' }
+	isTokRune := func(r byte) bool {
+		return isNumRune(r) || r >= 'a' && r <= 'z' || r >= 'A' && r <= 'Z' || r == '.' || r == '"' || r == '\'' || r == ']' || r == ')' || r == '[' || r == '(' || r == '#' || r == '`'
+	}
+	plainNum := func(tok string) (float64, bool, bool) { // value, small (<1e5), huge (>=18 digits)
+		if tok == "" {
+			return 0, false, false
 		}
 		digits := 0
-		for _, c := range num {
-			if c != '_' {
+		for i := 0; i < len(tok); i++ {
+			if !isNumRune(tok[i]) {
+				return 0, false, false
+			}
+			if tok[i] != '_' {
 				digits++
 			}
 		}
-		if digits < 9 {
+		if digits >= 18 {
+			return 0, false, true
+		}
+		f, err := strconv.ParseFloat(strings.ReplaceAll(tok, "_", ""), 64)
+		if err != nil {
+			return 0, false, false
+		}
+		return f, f < 1e5, false
+	}
+	product := 1.0
+	for i := 0; i < len(s); i++ {
+		if s[i] != '*' {
 			continue
 		}
-		if list || digits <= 17 {
+		// neighbouring tokens, blanks skipped
+		l := i
+		for l > 0 && (s[l-1] == ' ' || s[l-1] == '\t') {
+			l--
+		}
+		ls := l
+		for ls > 0 && isTokRune(s[ls-1]) {
+			ls--
+		}
+		left := s[ls:l]
+		r := i + 1
+		for r < len(s) && (s[r] == ' ' || s[r] == '\t') {
+			r++
+		}
+		re := r
+		for re < len(s) && isTokRune(s[re]) {
+			re++
+		}
+		right := s[r:re]
+		lv, lsmall, lhuge := plainNum(left)
+		rv, rsmall, rhuge := plainNum(right)
+		listNear := strings.HasSuffix(left, "]") || strings.HasPrefix(right, "[")
+		switch {
+		case (lhuge || rhuge) && !listNear:
+			// a string / bytes value times a count of 18+ digits overflows at
+			// once: the evaluator panics immediately (kept: the decoder must
+			// turn that into an error)
+		case lsmall && rsmall:
+			product *= lv * rv
+		case lsmall:
+			product *= lv
+		case rsmall:
+			product *= rv
+		default:
+			// anything else next to a '*' (identifiers such as time.Second,
+			// floats, SI suffixes, parentheses, mid-size numbers): the result
+			// may be gigabytes; skipped while the blow-up is a known finding
 			return true
 		}
 	}
-	// A chain of smaller factors ('ab'*18446*184467*...) grows just as far:
-	// multiply every factor of fewer than 18 digits that stands next to a '*'.
-	product := 1.0
-	for _, m := range cueFactor.FindAllSubmatch(data, -1) {
-		num := m[1]
-		if len(num) == 0 {
-			num = m[2]
-		}
-		clean := strings.ReplaceAll(string(num), "_", "")
-		if len(clean) == 0 || len(clean) >= 18 {
-			continue
-		}
-		if f, err := strconv.ParseFloat(clean, 64); err == nil && f > 1 {
-			product *= f
-		}
-	}
-	return product >= 1e8
+	return product >= 1e5
 }
-
-// cueFactor matches a decimal number standing directly after or before a '*'.
-var cueFactor = regexp.MustCompile(`\*\s*([0-9_]+)|([0-9_]+)\s*\*`)
 
 func runDecoder(name string, dec dials.Decoder) func(sel int, data []byte) textResult {
 	return func(sel int, data []byte) textResult {
